@@ -1833,9 +1833,24 @@ impl<K: AsRef<Key>> ServerError<K> {
         Octs: Octets + ?Sized,
         Target: Composer,
     {
-        let builder = builder.start_answer(msg, Rcode::NOTAUTH)?;
+        // RFC 8945, section 5.2: a request with a TSIG record that is
+        // misplaced, duplicated or cannot be interpreted is answered with
+        // RCODE 1 (FORMERR), not with a TSIG error.
+        let rcode = match self.0 {
+            ServerErrorInner::Unsigned { error }
+                if error == TsigRcode::FORMERR =>
+            {
+                Rcode::FORMERR
+            }
+            _ => Rcode::NOTAUTH,
+        };
+        let builder = builder.start_answer(msg, rcode)?;
         let mut builder = builder.additional();
         match self.0 {
+            // The TSIG record of such a request may not even be readable,
+            // so the FORMERR response goes out without one.
+            ServerErrorInner::Unsigned { error }
+                if error == TsigRcode::FORMERR => {}
             ServerErrorInner::Unsigned { error } => {
                 let tsig = {
                     MessageTsig::from_message(msg)
